@@ -139,6 +139,14 @@ def apply_op(target, op, validate):
             return target.remove(DUMMY)
         j = op[1]
         return target.remove(target[j] if -len(target) <= j < len(target) else DUMMY)
+    if name == "extend_self":
+        return target.extend(target)
+    if name == "iadd_self":
+        r = target.__iadd__(target)
+        return "SELF" if r is target else r
+    if name == "setitem_self":
+        target[mk_key(op[1])] = target
+        return None
     if name == "clear":
         return target.clear()
     if name == "reverse":
@@ -147,6 +155,10 @@ def apply_op(target, op, validate):
         kw = {}
         if op[1] == "neg":
             kw["key"] = lambda x: -x.n
+        if op[1] == "mod2":            # ties: stability (also under reverse=True) is observable
+            kw["key"] = lambda x: x.n % 2
+        if op[1] == "const":
+            kw["key"] = lambda x: 0
         if op[2]:
             kw["reverse"] = True
         return target.sort(**kw)
@@ -352,9 +364,14 @@ def single_ops(L, flavour):
         yield ("append", BAD)
     yield ("clear",)
     yield ("reverse",)
-    for kind in ("none", "neg"):
+    for kind in ("none", "neg", "mod2", "const"):
         for rev in (False, True):
             yield ("sort", kind, rev)
+    # the list itself as the argument (aliasing between the argument and the target)
+    yield ("extend_self",)
+    yield ("iadd_self",)
+    for a, b, c in itertools.product(se, se, (None, 1, -1, 2)):
+        yield ("setitem_self", ("s", a, b, c))
     yield ("pop",)
     for j in range(L):
         yield ("remove", j)
@@ -414,7 +431,9 @@ def random_op(rng, L, flavour):
         return ("remove", rng.randrange(L) if L and rng.random() < 0.8 else "absent")
     if c == 14:
         return rng.choice([("reverse",), ("sort", "none", False), ("sort", "neg", False),
-                           ("sort", "none", True), ("clear",)])
+                           ("sort", "none", True), ("clear",), ("sort", "mod2", True),
+                           ("sort", "mod2", False), ("sort", "const", True), ("extend_self",),
+                           ("iadd_self",), ("setitem_self", sl())])
     if c == 15:
         return ("setitem", ("s", idx(), idx(), None), [item() for _ in range(rng.randint(0, 3))])
     return ("append", item())
